@@ -108,7 +108,87 @@ macro_rules! with_orig {
     }};
 }
 
+/// A future whose `poll` runs a chain-of-2 skeleton on the waker it is given and RETAINS the handles
+/// that did not end inside the poll (they are ended by the harness after the poll has returned).
+pub struct Slots {
+    ha: Option<H>,
+    hb: Option<H>,
+    wakes: u32,
+}
+pub struct Fut {
+    /// harness-owned storage for what the future retains (the future itself is moved into a box)
+    slots: *mut Slots,
+    ready: bool,
+    val: u32,
+    star: bool,
+}
+unsafe impl Send for Fut {}
+impl core::future::Future for Fut {
+    type Output = u32;
+    fn poll(mut self: core::pin::Pin<&mut Self>, cx: &mut core::task::Context<'_>) -> core::task::Poll<u32> {
+        let star = self.star;
+        let (ready, val) = (self.ready, self.val);
+        let me = unsafe { &mut *self.slots };
+        let w = cx.waker();
+        let a = w.clone();
+        // chain (b cloned from a) or star (b cloned from the borrowed waker): fixed per harness
+        let b = if star { w.clone() } else { a.clone() };
+        let mut ha = H::new(a, 3);
+        let mut hb = H::new(b, 3);
+        if nd::any() {
+            w.wake_by_ref();
+            me.wakes += 1;
+        }
+        phase(&mut ha, 0, &mut me.wakes);
+        phase(&mut hb, 0, &mut me.wakes);
+        phase(&mut hb, 1, &mut me.wakes);
+        phase(&mut ha, 1, &mut me.wakes);
+        me.ha = Some(ha);
+        me.hb = Some(hb);
+        if ready {
+            core::task::Poll::Ready(val)
+        } else {
+            core::task::Poll::Pending
+        }
+    }
+}
+
+/// The waker crosses the boundary through the GENERATED Future glue (`trait_obj!(.. as Future)`, poll).
+fn future_object(star: bool) {
+    use cglue::*;
+    use core::future::Future;
+    with_orig!(cnt, orig, {
+        let ready: bool = nd::any();
+        let val: u32 = nd::any();
+        nd::cover!(ready, "poll returns Ready");
+        nd::cover!(!ready, "poll returns Pending");
+        let mut slots = Slots { ha: None, hb: None, wakes: 0 };
+        let fut = Fut { slots: &mut slots, ready, val, star };
+        {
+            let mut obj = trait_obj!(fut as Future);
+            let mut cx = core::task::Context::from_waker(&orig);
+            let r = core::pin::Pin::new(&mut obj).poll(&mut cx);
+            match r {
+                core::task::Poll::Ready(v) => assert!(ready && v == val, "output crosses the boundary unaltered"),
+                core::task::Poll::Pending => assert!(!ready),
+            }
+        }
+        let mut wakes = slots.wakes;
+        let mut ha = slots.ha.take().unwrap();
+        let mut hb = slots.hb.take().unwrap();
+        nd::cover!(ha.alive || hb.alive, "a waker retained after the poll");
+        phase(&mut ha, 2, &mut wakes);
+        phase(&mut hb, 2, &mut wakes);
+        let c = unsafe { &*(&cnt as *const Cnt) };
+        finish(c, wakes, &[&ha, &hb]);
+        assert!(c.clones == if star { 2 } else { 1 });
+    });
+}
+
 nd::harnesses! {
+    #[kani::unwind(3)] fn c19_future_object_chain2() { future_object(false) }
+    #[kani::unwind(3)] fn c19_future_object_star2() { future_object(true) }
+
     /// chain of 2: a = w.clone(); b = a.clone(); 3 phases (last after the poll).
     #[kani::unwind(3)]
     fn c19_chain2() {
